@@ -226,6 +226,8 @@ fn instances(tier: Tier) -> Vec<(InstRep, Vec<Vec<(u64, f64)>>)> {
         Some(FnRep::Poly { terms: vec![(vec![], 2.0), (vec![1], 1.0), (vec![], -0.5), (vec![2, 1], 0.0)] }),
         Some(FnRep::Poly { terms: vec![(vec![], 1.0), (vec![], 2.0)] }),
         Some(FnRep::Quad { entries: vec![(1, 2, 0.0), (2, 2, 0.0)], lin: Some((vec![(1, 1.0), (2, 0.0)], 0.5)) }),
+        // 40 terms over two ids
+        Some(FnRep::Lin { terms: (0..40usize).map(|i| (1 + (i % 2) as u64, [1.0, -0.5, 2.0][i % 3])).collect(), c: 0.5 }),
     ];
     let c_a = ConRep::new(3, LE_ZERO, Some(FnRep::Lin { terms: vec![(2, 1.0)], c: 0.0 })).with_meta("a");
     let c_b = ConRep::new(7, EQ_ZERO, Some(FnRep::Quad { entries: vec![(1, 1, 1.0)], lin: Some((vec![], -4.0)) }));
